@@ -70,6 +70,7 @@ def c05(tier):
     A = ['days_to_date', 'date_to_days', 'spec_rd/uf']
     return [Ob('c01_days_to_date_holds', slices=[{'d': (-2**31, -1)}, {'d': (0, 2**31 - 1)}], note='contract of days_to_date used below'),
             Ob('c01_date_to_days_holds', note='contract of date_to_days used below'),
+            Ob('oracle_rd_bound_holds', profiles=('on',), note='bound lemma attached to the uninterpreted view of spec_rd'),
             Ob('oracle_rd_monotone_holds', profiles=('on',), note='oracle sanity')] + \
            [Ob(f, abstractions=A) for f in fns_of('c05_', 'c05.rs')]
 
@@ -81,7 +82,8 @@ def c07(tier):
 
 KERNELS = ['nanos_to_days_nanos', 'days_nanos_to_nanos', 'nanos_to_time']
 def kernel_obs():
-    return [Ob('c03_days_nanos_to_nanos_contract_holds', note='contract of days_nanos_to_nanos used below'),
+    return [Ob('oracle_rd_bound_holds', profiles=('on',), note='bound lemma attached to the uninterpreted view of spec_rd'),
+            Ob('c03_days_nanos_to_nanos_contract_holds', note='contract of days_nanos_to_nanos used below'),
             Ob('c03_nanos_to_days_nanos_contract_holds', note='contract of nanos_to_days_nanos used below'),
             Ob('c03_nanos_to_time_contract_holds', note='contract of nanos_to_time used below')]
 
@@ -98,6 +100,47 @@ def c09(tier):
         else: obs.append(Ob(f, abstractions=KERNELS if '_dt_' in f else (), slices=sl))
     return obs
 
+def rfc3339_shape(k, zulu):
+    """string length and per-byte domains of one ABNF shape (mirrors the assumptions in c13_parse_rfc3339_matches_grammar_holds)"""
+    D = (48, 57)
+    dom = {}
+    for i in range(19):
+        if i in (4, 7): dom[i] = (45, 45)
+        elif i == 10: dom[i] = (84, 84)
+        elif i in (13, 16): dom[i] = (58, 58)
+        else: dom[i] = D
+    p = 19
+    if k > 0:
+        dom[19] = (46, 46)
+        for i in range(k): dom[20 + i] = D
+        p = 20 + k
+    if zulu: dom[p] = (90, 90); L = p + 1
+    else:
+        dom[p] = (43, 45)
+        for j in (1, 2, 4, 5): dom[p + j] = D
+        dom[p + 3] = (58, 58); L = p + 6
+    return L, dom
+
+def c13(tier):
+    ks = [0, 1, 2, 3, 6, 8, 9, 10, 11, 12, 19, 20, 21] if tier != 'thorough' else list(range(0, 26))
+    A = ['date_to_days', 'spec_rd/uf'] + KERNELS
+    obs = [Ob('c01_date_to_days_holds', note='contract of date_to_days used below')] + kernel_obs()
+    for k in ks:
+        for zulu in (True, False):
+            L, bd = rfc3339_shape(k, zulu)
+            if L > 46: continue
+            obs.append(Ob('c13_parse_rfc3339_matches_grammar_holds', strlen=L, unwind=30, dom={'k': (k, k), 's#bytes': bd}, abstractions=A,
+                          slices=[{'zulu': zulu}], note='shape: %d fraction digits, %s; length %d' % (k, 'Z' if zulu else 'numeric offset', L), validate=False))
+    return obs
+
+def c14(tier):
+    lens = [0, 5, 19, 20, 21, 25, 26, 30, 35, 42] if tier != 'thorough' else list(range(0, 46))
+    obs = []
+    for L in lens:
+        obs.append(Ob('c14_parse_rfc3339_total_holds', strlen=L, note='all strings of byte length %d' % L))
+        obs.append(Ob('c14_datetime_from_str_total_holds', strlen=L, note='all strings of byte length %d' % L))
+    return obs
+
 PROPS = {
     'C01': {'obligations': c01,
             'bounds': 'all 2^32 day numbers; all (year, month, day) in i32 x u32 x u32; month loop unwound 16 with unwinding assertion',
@@ -110,6 +153,8 @@ PROPS = {
     'C08': {'obligations': c08, 'bounds': 'all times of day x all u32 counts; all pairs of Times; all Durations', 'outside': ''},
     'C09': {'obligations': c09, 'bounds': 'all instants with a two-day margin at the range ends x all offsets in (-24h, 24h) x all u32/i32 candidate values', 'outside': 'the two days at each end of the range'},
     'C10': {'obligations': c10, 'bounds': 'all instants with a one-day margin at the range ends x all offsets in (-24h, 24h)', 'outside': 'the x/X zone text (C11); Offset::Local (reads /etc/localtime: C18)'},
+    'C13': {'obligations': c13, 'bounds': 'read side only: all strings of each listed byte length (<= 45) over ASCII and two-byte UTF-8 sequences; reference reader loop unwound 30', 'outside': 'format_rfc3339 (String building); strings with 3/4-byte characters; lengths above 45'},
+    'C14': {'obligations': c14, 'bounds': 'DateTime::parse_rfc3339 and DateTime::from_str only: all strings of each listed byte length (<= 45) over ASCII and two-byte UTF-8', 'outside': 'parse()/format() with pattern strings, Date/Time::from_str, CronSchedule::parse (String/Vec<String> code out of reach)'},
     'C15': {'obligations': c15, 'bounds': 'full i32/u32/u64 domain of every parameter', 'outside': 'the rendered message text (std formatting of the tracked min/max/value fields)'},
     'C04': {'obligations': c04, 'bounds': 'all instants x all u32 counts; all Durations (u64 secs, u32 nanos < 10^9)', 'outside': ''},
 }
